@@ -76,10 +76,14 @@ def run(ctx, model_ok):
                 pairs.append((a, b))
         ctx.exhaustive = True
     n = ctx.n(3000, 20000)
-    defaults = [("UTC", 0)] + [(z, Z[z]) for z in rng.sample(names, 6)] + [("GMT+3", 180), ("GMT-5:30", -330)]
+    frac = [z for z in names if Z[z] % 60 != 0]
+    defaults = [("UTC", 0)] + [(z, Z[z]) for z in rng.sample(names, 5)] + [(z, Z[z]) for z in rng.sample(frac, min(3, len(frac)))] + \
+        [("GMT+3", 180), ("GMT-5:30", -330), ("GMT+5:30", 330), ("GMT-0:30", -30), ("GMT+0:45", 45)]
     for i in range(n + len(pairs)):
         dz, doff = rng.choice(defaults) if rng.random() < 0.4 else ("UTC", 0)
         h, m, s = rng.randint(0, 23), rng.randint(0, 59), rng.choice([None, None, rng.randint(0, 59)])
+        if rng.random() < 0.15:
+            h = rng.choice([0, 23])
         wall = h * 3600 + m * 60 + (s or 0)
         k = rng.random()
         if k < 0.25 and 1 <= h % 12 <= 11:
@@ -121,6 +125,9 @@ def run(ctx, model_ok):
             inst, zn, zo = (base + d % 86400 if kind == "add" else base - d % 86400), n1.upper(), o1
         else:
             h2, m2 = rng.randint(0, 23), rng.randint(0, 59)
+            if rng.random() < 0.3:
+                # one of the two times in the first or the last hour of the day
+                h2 = rng.choice([0, 23])
             text = f"{ttxt} to {h2}:{m2:02d}"
             if rng.random() < 0.4:
                 # the first time comes from a variable bound on an earlier line (same default zone)
